@@ -855,6 +855,11 @@ func (vc *VC) evalCall(e *Expr, env *SpecEnv) SV {
 			vc.errorf("spec: %s: no range over a map with ordinal %d in this function", fn, n)
 			return mathInt("0")
 		}
+		aks := ""
+		if strings.HasPrefix(ks, "(Array") {
+			// array-keyed map: the range symbols speak about the integer codes of the keys
+			aks, ks = ks, "Int"
+		}
 		ln, key, idx := vc.rangeSyms(n, ks)
 		switch fn {
 		case "iterpos":
@@ -863,8 +868,14 @@ func (vc *VC) evalCall(e *Expr, env *SpecEnv) SV {
 		case "iterlen":
 			return mathInt(ln)
 		case "iterkey":
+			if aks != "" {
+				return SV{t: app("arrid_inv"+sanitize(aks), app(key, ev(1).t)), srt: aks}
+			}
 			return SV{t: app(key, ev(1).t), srt: ks}
 		default:
+			if aks != "" {
+				return mathInt(app(idx, app("arrid"+sanitize(aks), ev(1).t)))
+			}
 			return mathInt(app(idx, ev(1).t))
 		}
 	case "wit":
